@@ -5,6 +5,7 @@ import RV.Proofs.SyncMerc
 import RV.Proofs.SyncInt
 import RV.Proofs.SyncVar
 import RV.Proofs.SyncEos
+import RV.Proofs.SyncKeepPhys
 import Mathlib.Tactic.Ring
 /-
   C09 — deferred synchronisation never changes the physics.
@@ -370,7 +371,7 @@ theorem c09_whfast_variational_com_drift_every_mode {S : VSem T PJ X V A VX VV V
     shows 4. -/
 theorem c09_whfast_variational_keep_loses_com_drift_as_found :
     let run := fun (safe keep vfix : Bool) (σ : List (Op Unit)) =>
-      (vRun clockSem ⟨.jacobi, 0, 0, false, safe, keep, false, vfix⟩ σ
+      (vRun clockSem ⟨.jacobi, 0, 0, false, safe, keep, false, vfix, false⟩ σ
         (⟨true, false, false⟩, ⟨0, (), (), (), 0, 0, (), 0⟩)).2.vpos
     run true false false [.step, .step, .synchronize] = 4 ∧
     run false false false [.step, .step, .synchronize] = 4 ∧
@@ -604,6 +605,45 @@ theorem c09_whfast_unsafe_sync_equals_safe_with_callbacks_partial (S : Sem T PJ 
   have hf : initF x0.1 = ⟨true, true, true⟩ := by
     rw [flags_eta (initF x0.1), initF_isSync, h0, hr, initF_allocated]
   exact inv_final S c (inv_macro_run L c hC hF18 l x0 x0 (Inv.fresh _ _ rfl hf hf))
+/-- **keep_unsynchronized = 1 with pre/post timestep callbacks = safe mode** (WHFast, semantic,
+    repaired part1 `c.p1fix = true`, fix 35adc5c).  `reb_simulation_step` wraps every callback in
+    "synchronize → callback → set recalculate_coordinates_this_timestep"; with keep_unsynchronized
+    the synchronize leaves `is_synchronized = 0`, so the next part1 recalculates *while
+    unsynchronised*: nested synchronize (cache, sync, restore), warning, `from_inertial`, and — this
+    is the repair — `is_synchronized = 1`, hence the first-half drift instead of the merged one.
+    For every sequence of steps, synchronisations, read-only calls and recalculate-flag settings
+    (i.e. callbacks that do not edit particles; an edit is discarded by the nested synchronize,
+    which is the documented meaning of keep_unsynchronized) a final synchronize shows the positions
+    and velocities of the safe run doing the same steps.  Hypotheses: the group laws `Laws`, the two
+    corrector-inverse facts as in `c09_whfast_unsafe_sync_equals_safe_partial`, and `hfrom`:
+    `from_inertial` of synchronised particles yields their coordinates whatever `p_jh` held before
+    (it overwrites every position / velocity / mass member). -/
+theorem c09_whfast_keep_unsynchronized_with_callbacks_equals_safe_repaired (S : Sem T PJ X V A)
+    (L : Laws S) (c : Config) (hp : c.p1fix = true)
+    (hfrom : ∀ p q, S.fromI (S.toIpos p) (S.toIvel p) q = p)
+    (hC : InverseOn S (corrBlk c)) (hF18 : InverseOn S (c2Blk c))
+    (σ : List (Op (X × V))) (hσ : ∀ o ∈ σ, o.noEdit = true) (x0 : Flags × St PJ X V A)
+    (h0 : x0.1.isSync = true) (hr : (initF x0.1).recalc = true) :
+    let u := apply S (c.mode false true) .synchronize (run S (c.mode false true) σ x0)
+    let v := run S (c.mode true false) (σ.filter Op.isStep) x0
+    u.2.pos = v.2.pos ∧ u.2.vel = v.2.vel := by
+  intro u v
+  have hf : initF x0.1 = ⟨true, true, true⟩ := by
+    rw [flags_eta (initF x0.1), initF_isSync, h0, hr, initF_allocated]
+  exact kinv_final S c (kinv_run L c hp hfrom hC hF18 σ hσ x0 x0 (KInv.fresh _ _ rfl hf hf))
+
+/-- **The source as found applies the merged full drift to freshly recalculated coordinates**
+    (`p1fix = false`): the step that follows a callback under keep_unsynchronized consists of the
+    nested synchronize, `from_inertial` — after which `p_jh` holds *synchronised* coordinates — and
+    then `driftOps c false`, the drift of an *unsynchronised* state (`K(dt) C(dt)`, no correctors):
+    half a drift too many per callback step.  The repaired source has `driftOps c true` there. -/
+theorem c09_whfast_keep_callback_step_drift_by_source_variant (c : Config) :
+    (stepOps (c.mode false true) ⟨false, true, true⟩).1 =
+      [.init] ++ ([.init] ++ (([.savePJ] ++ syncMid c) ++ [.restorePJ])) ++ [.warn, .fromInertial] ++
+        driftOps c c.p1fix ++ stepTail c ++ [.advT (.frac 1 2)] := by
+  cases hp : c.p1fix
+  · rw [stepOps_keep_recalc_as_found c hp]
+  · rw [stepOps_keep_recalc c hp]
 end physics2
 
 /-! ### the hypotheses are satisfiable: a 1-D oscillator, integer time -/
@@ -639,7 +679,7 @@ example : Laws demoSem where
   ev_half := by decide
   ev_comp := by decide
 
-example : SabaLaws demoSem ⟨0x101, false, false, false⟩ where
+example : SabaLaws demoSem ⟨0x101, false, false, false, false⟩ where
   kepler_add := by intro a b p; simp only [demoSem]; ext <;> simp; ring
   com_add := by intro a b p; simp only [demoSem]; ext <;> simp; ring
   kepler_com := by intro a b p; rfl
@@ -669,6 +709,40 @@ example : CorrLaws demoSem where
   ev_corrA_double := by intro i m; simp only [demoSem]; ring
   ev_corrB_neg := by intro n s; simp [demoSem]
 
+/-- a second instance without a centre-of-mass component, in which `from_inertial` does not look
+    at the old `p_jh` at all: `Laws` and the hypothesis `hfrom` of
+    `c09_whfast_keep_unsynchronized_with_callbacks_equals_safe_repaired` hold together -/
+def demoSemK : Sem Int (Int × Int) Int Int Int where
+  ev := fun c => match c with | .frac n d => n * (8 / (d : Int)) | _ => 0
+  fromI := fun x v _ => (x, v)
+  toIpos := fun p => p.1
+  toIvel := fun p => p.2
+  posJ := fun p => p.1
+  posB := fun p => p.1
+  kepler := fun a p => (p.1 + a * p.2, p.2)
+  com := fun _ p => p
+  jump := fun _ p => p
+  inter := fun b acc p => (p.1, p.2 + b * acc)
+  upd := fun x => -x
+  jerk := fun _ _ p => p
+  mkFold := fun _ a => a
+  jacAcc := fun _ p => p
+  lazyShift := fun p => p
+  lazyReset := fun _ p => p
+  sabaFold := fun _ => 0
+  sabaLazyKick := fun _ _ p => p
+
+example : Laws demoSemK where
+  kepler_add := by intro a b p; simp only [demoSemK]; ext <;> simp; ring
+  com_add := by intro a b p; rfl
+  kepler_com := by intro a b p; rfl
+  from_to := by intro p; rfl
+  ev_half := by decide
+  ev_comp := by decide
+
+example : ∀ p q : Int × Int, demoSemK.fromI (demoSemK.toIpos p) (demoSemK.toIvel p) q = p := by
+  intro p q; rfl
+
 /-- MERCURIUS demo: particles = (x, v), kick with a cubic force -/
 def demoMSem : MSem Int (Int × Int) Unit Int Unit where
   ev := fun c => match c with | .frac n d => n * (8 / (d : Int)) | _ => 0
@@ -695,7 +769,7 @@ example : MLaws demoMSem where
     hypothesis `hF18` of `c09_whfast_unsafe_sync_equals_safe_partial` cannot be derived from
     the laws of the primitives.  The search of rv/c09.py exhibits the same on the real code. -/
 theorem c09_F18_corrector2_not_inverse_in_model :
-    ¬ InverseOn demoSem (c2Blk ⟨.jacobi, 0, 0, true, false, false, false, false⟩) := by
+    ¬ InverseOn demoSem (c2Blk ⟨.jacobi, 0, 0, true, false, false, false, false, false⟩) := by
   intro h
   have := h ⟨(1, 0, 0), 0, 0, 0, (0, 0, 0), (0, 0, 0)⟩
   revert this
